@@ -324,6 +324,53 @@ real_cases = st.fixed_dictionaries({
     "chain": st.lists(st.integers(0, 7), min_size=1, max_size=3)})
 
 
+# ------------------------------------------------------------------------------------------------ all chains of length 3
+
+def check_all_chains(case):
+    """Every chain of three conversions (all ordered notation triples reachable through the table: 8 x 8 x 8 per source, the
+    single-edge radian notation included where it occurs) from one source value in one notation."""
+    E = _edges()
+    notation = case["src"]
+    v0 = _build(notation, case["neg"], case["d"], case["m"], case["s_nano"])
+    dsf = _fden(notation, v0)
+    r0 = repr(v0)
+    n = 0
+    for to1, l1, f1 in E[notation]:
+        v1 = _apply(l1, f1, v0, r0)
+        _verify(notation, v0, dsf, to1, l1, v1)
+        for to2, l2, f2 in E[to1]:
+            v2 = _apply(l2, f2, v1, "%s via %s > %s" % (r0, l1, l2))
+            _verify(notation, v0, dsf, to2, "chain step " + l2, v2)
+            for to3, l3, f3 in E[to2]:
+                v3 = _apply(l3, f3, v2, "%s via %s > %s > %s" % (r0, l1, l2, l3))
+                _verify(notation, v0, dsf, to3, "chain step " + l3, v3)
+                n += 1
+    metric("chains_per_source", float(n))
+
+
+def _chain_values(tier, seed):
+    import random
+    rnd = random.Random(seed * 31 + 5)
+    vals = [(False, 0, 0, 0), (True, 0, 0, 1), (False, 29, 59, 59999999999), (True, 0, 30, 0), (False, 259, 2, 0), (True, 359, 59, 59 * 10 ** 9),
+            (False, 511, 59, 59999999999), (False, 512, 6, 0), (True, 624, 2, 59999999990), (False, 719, 59, 59 * 10 ** 9),
+            (False, 0, 15, 0), (True, 12, 34, 56789000000)]
+    extra = 8 if tier == "quick" else 400
+    for _ in range(extra):
+        d = rnd.choice([rnd.randint(0, 359), rnd.randint(0, 719)])
+        sn = rnd.choice([rnd.randint(0, 59) * 10 ** 9, rnd.randint(0, 60 * 10 ** 9 - 1), 59999999999, 10 ** 9 - 1])
+        vals.append((rnd.random() < 0.5, d, rnd.randint(0, 59), sn))
+    return vals
+
+
+def enumerate_all_chains(tier, seed, shard, nshards):
+    i = 0
+    for neg, d, m, sn in _chain_values(tier, seed):
+        for src in AR.NOTATIONS:
+            if i % nshards == shard:
+                yield {"src": src, "neg": neg, "d": d, "m": m, "s_nano": sn, "chain": []}
+            i += 1
+
+
 # ------------------------------------------------------------------------------------------------ (iv) invalid HP
 
 def check_invalid(case):
@@ -377,6 +424,9 @@ SUBCHECKS = [
                   "valid HP, same angle within 1e-8\""),
     SubCheck("lattice_vectorised", check_lattice_vectorised, enumerate=enumerate_vectorised, shards_quick=2, shards_thorough=8,
              exhaustive=True, rule="hp2dec_v / dec2hp_v over the lattice, one degree per call"),
+    SubCheck("all_length3_chains", check_all_chains, enumerate=enumerate_all_chains, classes=_cls_chain, shards_quick=6, shards_thorough=16,
+             rule="for a pool of boundary values (+ random ones) in each of the 9 notations: every chain of 3 conversions through the table "
+                  "(about 500 per source), each step within 1e-8\" of the source"),
     SubCheck("chains_from_fields", check_chain, strategy=chain_cases, classes=_cls_chain,
              quick=6000, thorough=600000, shards_quick=4, shards_thorough=16,
              rule="angles with 1e-9\" resolution incl. boundary neighbours, in any notation, through random chains of 1..3 conversions"),
